@@ -244,6 +244,9 @@ def run(ctx):
     done = next(r for r in rows if r.get("kind") == "done")
     if nobad and min(done["restarts_last_later"], done["restarts_last_earlier"]) < 20:
         raise vlib.Inconclusive("too few restarts with two live sessions of different expiries in both token orders: %s" % done)
+    forms = done.get("blocked_by_form") or {}
+    if nobad and any(forms.get(f, 0) < 50 for f in ("v4", "v6", "v6zone", "v4mapped")):
+        raise vlib.Inconclusive("too few rejected attempts for some textual form of the remote address: %s" % forms)
     if holes and nobad:
         raise vlib.Inconclusive("walk left %d (state, action) pairs unexplored, e.g. %s" % (len(holes), holes[:3]))
     if len(flaky) > 5:
@@ -284,6 +287,7 @@ def run(ctx):
                 "spec's nondeterministic points (count kept/forgotten at the end instant; expiry prolonged or not)",
         "trace_lines": len(t_rl) + len(t_au), "trace_lines_rejected": len(bad_rl) + len(bad_au),
         "trace_blocked_replies": blocked_lines, "flaky": len(flaky),
+        "blocked_replies_by_remote_address_form": forms,
         "restarts_2live_diff_expiry_last_token_expires_later": done["restarts_last_later"],
         "restarts_2live_diff_expiry_last_token_expires_earlier": done["restarts_last_earlier"],
         "exhaustive": True, "samples": samples,
